@@ -46,6 +46,20 @@ func (w *World) regCheck(which regWhich) *Violation {
 		w.Stats.Inc("reach.group-level>=2")
 	}
 	w.Stats.Add("reach.large-value", wr.LargeVals)
+	for _, p := range view.Regs {
+		// shared sections past the widths at which CBOR heads change (24 entries; 32 digests = 256 bytes)
+		if len(p.IEDTypes) >= 25 {
+			w.Stats.Inc("reach.type-table>=25")
+		}
+		for i := range p.IED {
+			if p.IED[i].Kind == "cmap" && len(p.IED[i].Keys) >= 24 {
+				w.Stats.Inc("reach.record-fields>=24")
+				if len(p.IED[i].Keys) >= 32 {
+					w.Stats.Inc("reach.record-fields>=32")
+				}
+			}
+		}
+	}
 	for _, t := range wr.Trees {
 		if t.Height >= 3 {
 			w.Stats.Inc("reach.tree-height>=3")
@@ -261,7 +275,7 @@ func init() {
 		[]string{"rt.", "flag.", "reg.parse", "reg.decode"},
 		regWhich{roundtrip: true, flags: true, content: true},
 		func(w *World, run *Stats, levels, slabs int) bool { return run.C["reach.inlined-children"] > 0 },
-		[]string{"reach.inlined-children", "reach.compact-encoding", "reach.external-group", "reach.large-value"})
+		[]string{"reach.inlined-children", "reach.compact-encoding", "reach.external-group", "reach.large-value", "reach.type-table>=25", "reach.record-fields>=32"})
 
 	regProp("C09", "exploration",
 		"histories in which the driver disposes of every value handed back (recursive pop + removal of referenced slabs) crossing large-value, inline<->standalone, collision-group, merge and promotion lifecycles; some commits meet a failing ledger write or delete and are retried; after every stride the register set of the view (and after every commit the durable register set alone) must equal the set reachable from the live roots by the independent parser, each non-root referenced once, one owner per tree; non-trivial = a removal or overwrite returned a slab reference that was disposed of and >= 3 slabs existed; distinct by trace hash",
